@@ -297,6 +297,8 @@ Qed.
 (* non-vacuity: a document using every extension form; the value-neutral part agrees with
    its erasure, the whole is accepted in default mode and refused in strict mode *)
 Definition cm1 : xws := [WB 32; WBlock [97;42;42;98]; WLine [120;47;42]; WB 9].
+(* slash star star star slash,  slash star blank a blank star star slash  (close since json-c commit d13d591) *)
+Definition cm2 : xws := [WBlock [42]; WBlock [32;97;32;42]].
 Definition exx : xstx :=
   XArr [] [(cm1, XLit LNull [true;false;true;false], [WBlock []]);
            ([], XNum (mknum true [48;48;49;50] None None), cm1);
@@ -320,13 +322,13 @@ Definition jv_is (a b : jv) : bool :=
   end.
 Definition ext_example_ok : bool :=
   let sb := fun l : list byte => zlen l in
-  wf_xstxb exx && (Z.of_nat (xnest exx) <? 3) && xints_in_range exx && xnames_nul_free exx && negb (neutral exx) &&
+  wf_xws cm1 && wf_xws cm2 && wf_xstxb exx && (Z.of_nat (xnest exx) <? 3) && xints_in_range exx && xnames_nul_free exx && negb (neutral exx) &&
   wf_xstxb exx_neutral && neutral exx_neutral && wf_stxb (erase exx_neutral) &&
   match tok_new 3 false false false, tok_new 3 true false false with
   | Some t, Some ts =>
-      match parse_ex_cstr sb t (render_xdoc cm1 exx cm1 ++ [120;0;1]), parse_ex_cstr sb ts (render_xdoc cm1 exx cm1) with
+      match parse_ex_cstr sb t (render_xdoc (cm1 ++ cm2) exx cm2 ++ [120;0;1]), parse_ex_cstr sb ts (render_xdoc cm1 exx cm1) with
       | PR t' (Some v), PR ts' None =>
-          jv_is v (xvalue sb exx) && (char_offset t' =? zlen (render_xdoc cm1 exx cm1)) &&
+          jv_is v (xvalue sb exx) && (char_offset t' =? zlen (render_xdoc (cm1 ++ cm2) exx cm2)) &&
           match err ts' with TE_success | TE_continue => false | _ => true end
       | _, _ => false end
   | _, _ => false end.
